@@ -723,7 +723,7 @@ func stdAccounts() []acct {
 }
 
 func stdAccounts0() []acct {
-	return []acct{{"e", 10, 1000000}, {"e", 11, 3}, {"h", 20, 1000}, {"h", 21, 0}, {"h", 22, 50}, {"h", 23, 7}, {"e", 30, 5}}
+	return []acct{{kind: "e", n: 10, balance: 1000000}, {kind: "e", n: 11, balance: 3}, {kind: "h", n: 20, balance: 1000}, {kind: "h", n: 21, balance: 0}, {kind: "h", n: 22, balance: 50}, {kind: "h", n: 23, balance: 7}, {kind: "e", n: 30, balance: 5}}
 }
 
 func runSearch(a map[string]string) {
@@ -864,6 +864,48 @@ func runSearch(a map[string]string) {
 				blk.txs = []*txn{tx}
 				runBlock(blk, "static-nesting")
 			}
+		}
+	}
+	// 1a'. value operands from the 256-bit boundary lattice inside a STATICCALL (rich accounts, so that the transfer
+	// would be affordable): CALL must be refused whatever word the value is, at any nesting below the static frame
+	richStd := func() []acct {
+		accs := stdAccounts()
+		for i := range accs {
+			switch accs[i].n {
+			case 10:
+				accs[i].bbig = new(big.Int).Mul(pow2(72), big.NewInt(3))
+			case 20, 21, 22, 23:
+				accs[i].bbig = richBalance(int64(accs[i].balance))
+			}
+		}
+		return accs
+	}
+	for _, v := range latticeValues() {
+		for _, nest := range []string{"", "call", "delegatecall", "callcode", "staticcall"} {
+			for _, tgt := range []string{"b40", "b22"} {
+				g := newGen(r.Fork(), st)
+				g.nextID = 2
+				blk := &block{cfg: cfgs[0], accounts: richStd(), salts: map[int]*frame{}}
+				g.blk = blk
+				leaf := &act{kind: 'C', id: g.id(), ck: "call", addr: tgt, vbig: v, body: &frame{end: "stop"}}
+				f := &frame{acts: []*act{leaf}, end: "stop"}
+				if nest != "" {
+					f = &frame{acts: []*act{mk(g, nest, "stop", f.acts, 0)}, end: "stop"}
+				}
+				sc := &act{kind: 'C', id: g.id(), ck: "staticcall", addr: "b21", body: f}
+				blk.txs = []*txn{{hash: 1, origin: "b10", target: "b20", rootID: 1, body: &frame{acts: []*act{sc}, end: "stop"}, blk: blk}}
+				runBlock(blk, "static-value-lattice")
+			}
+		}
+		// the same values outside a static frame, in frames that fail: the transfer must be undone
+		for _, end := range []string{"revert", "invalid"} {
+			g := newGen(r.Fork(), st)
+			g.nextID = 2
+			blk := &block{cfg: cfgs[0], accounts: richStd(), salts: map[int]*frame{}}
+			g.blk = blk
+			inner := &act{kind: 'C', id: g.id(), ck: "call", addr: "b22", vbig: v, body: &frame{acts: []*act{{kind: 'S', k: 1, v: 7}}, end: end}}
+			blk.txs = []*txn{{hash: 1, origin: "b10", target: "b20", rootID: 1, body: &frame{acts: []*act{inner}, end: "stop"}, blk: blk}}
+			runBlock(blk, "value-lattice")
 		}
 	}
 	// 1b. precompile leaf frames: call kind x precompile 1..18 x outcome (ok / gas below price / bad input)
